@@ -454,6 +454,24 @@ def entries_check(lib_raw=None):
                 undecided.append('%s: the production the entry runs could not be read off its body' % name)
         if not re.match(r'init\([^;]*\);', re.sub(r'\s+', '', body)):
             failures.append(fail(name, 'C07.entry-calls-init-first.%s' % name, 'public entry %s does not call init() first' % name, ['C07', 'C17', 'C15', 'C20'], Dummy('sv-parser-parser/src/lib.rs', lib_raw[:lib_raw.index('pub fn ' + name)].count('\n') + 1)))
+    # ---- init() resets everything, unconditionally (C07; a premise of C13, C15, C17, C20)
+    m = re.search(r'fn init\([^)]*\)\s*\{([^}]*)\}', lib_raw)
+    init_body = re.sub(r'\s+', '', m.group(1)) if m else ''
+    checked += 1
+    IP = ['C07', 'C13', 'C15', 'C17', 'C20']
+    if m is None:
+        undecided.append('fn init(..) not found in sv-parser-parser/src/lib.rs (anchor lost)')
+    else:
+        at_ = Dummy('sv-parser-parser/src/lib.rs', lib_raw[:m.start()].count('\n') + 1)
+        cf_ = re.search(r'\b(if|match|while|for|loop|return)\b|\?', m.group(1))
+        if cf_ and any(m.group(1).find(r_) > cf_.start() or m.group(1).find(r_) < 0 for r_ in ('nom_packrat::init!', 'clear_directive', 'clear_version')):
+            # (control flow AFTER the three resets does not concern them)
+            failures.append(fail('init', 'C07.init-resets-unconditionally', 'init() contains control flow: a reset that is skipped on some path leaves state behind', IP, at_))
+        if re.search(r'#\s*\[', m.group(1)):
+            failures.append(fail('init', 'C07.init-resets-in-every-build', 'a statement of init() carries an attribute (cfg): a reset that is compiled out in some build leaves state behind', IP, at_))
+        for need in ('nom_packrat::init!();', 'clear_directive();', 'clear_version();'):
+            if need not in init_body:
+                failures.append(fail('init', 'C07.init-resets.%s' % need.strip('();').replace('::', '_').replace('!', ''), 'init() does not call %s' % need, IP, at_))
     # Error::Parse is the report of the STRICT parsers and of nothing else: it is constructed in parse_sv_pp / parse_lib_pp (unit
     # wrap proves: only from a parser Err, hence never in incomplete mode) and nowhere else in the six crates.  parse_*_str run the
     # preprocessor first: if the preprocessor (or anything else) constructed Error::Parse, incomplete mode could report it
@@ -836,22 +854,8 @@ def effects_run(fns, table, comb):
         undecided_e.append('impl HasExtraState<..> for SpanInfo not found (anchor lost)')
     if storage is None or storage[2][:1] != ['AnyNode']:
         undecided_e.append('nom_packrat::storage!(AnyNode, ..) not found (anchor lost)')
-    # ---- C07: init() resets everything and every entry calls it first
-    init = by_name.get('init')
+    # ---- C07: init() resets everything and every entry calls it first: gvc.entries (entries_check), merged below
     lib_raw = open(os.path.join(REPO, 'sv-parser-parser/src/lib.rs')).read()
-    m = re.search(r'fn init\([^)]*\)\s*\{([^}]*)\}', lib_raw)
-    init_body = re.sub(r'\s+', '', m.group(1)) if m else ''
-    checked += 1
-    if m is None:
-        undecided_e.append('fn init(..) not found in sv-parser-parser/src/lib.rs (anchor lost)')
-    else:
-        cf_ = re.search(r'\b(if|match|while|for|loop|return)\b|\?', m.group(1))
-        if cf_ and any(m.group(1).find(r_) > cf_.start() or m.group(1).find(r_) < 0 for r_ in ('nom_packrat::init!', 'clear_directive', 'clear_version')):
-            # (control flow AFTER the three resets does not concern them)
-            failures.append(fail('init', 'C07.init-resets-unconditionally', 'init() contains control flow: a reset that is skipped on some path leaves state behind', ['C07', 'C13', 'C15', 'C17', 'C20'], Dummy('sv-parser-parser/src/lib.rs', lib_raw[:m.start()].count('\n') + 1)))
-        for need in ('nom_packrat::init!();', 'clear_directive();', 'clear_version();'):
-            if need not in init_body:
-                failures.append(fail('init', 'C07.init-resets.%s' % need.strip('();').replace('::', '_').replace('!', ''), 'init() does not call %s' % need, ['C07'], Dummy('sv-parser-parser/src/lib.rs', 1)))
     # each reset touches ITS thread-local (unit kwstack proves that what it touches is emptied; it reads the closure, not the name of
     # the thread-local in front of `.with`)
     for fnname, tl in (('clear_version', 'CURRENT_VERSION'), ('clear_directive', 'IN_DIRECTIVE')):
